@@ -7,8 +7,11 @@ from ..common import rat, unrat
 
 PROP = "C01"
 RULE = ("seeded random lifts / circuits / simulator runs / concatenations + exhaustive ordered index tuples of small "
-        "registers; non-trivial: >= 2 operations, with at least one gate of arity >= 2 on non-adjacent or descending "
-        "indices, or an idle qubit (single lifts: arity >= 2 on non-adjacent or descending indices, or an idle qubit); "
+        "registers + HISTORIES (sequences of lifted_matrix / to_unitary / apply / get_wavefunction / + calls on circuit, "
+        "operation, simulator and array objects that are kept alive, each call differing from an earlier one in exactly one "
+        "component, results overwritten by the caller in between); non-trivial: >= 2 operations, with at least one gate of "
+        "arity >= 2 on non-adjacent or descending indices, or an idle qubit (single lifts: arity >= 2 on non-adjacent or "
+        "descending indices, or an idle qubit; histories: >= 2 result-producing calls, one of them on such a circuit); "
         "distinct = distinct canonical JSON of the case")
 TRUSTED = [
     "numpy `@`, `np.kron`, `np.eye`, `np.multiply`, `np.exp` and sympy `Matrix.__matmul__`, `kronecker_product`, `eye`, "
@@ -21,12 +24,19 @@ TRUSTED = [
     "the constructor checks of `Wavefunction(...)` (power-of-two length, unit norm by np.isclose) are the abstract "
     "predicate `valid`; the driver evaluates it exactly (sum |a|^2 = 1)",
     "`gate.matrix` of every operation is an input of this property (its correctness is C02/C07)",
+    "histories: the model is a pure function, so it answers every call of a history independently (request per step); "
+    "that the implementation's answer does not depend on the calls made before is exactly what the comparison tests",
+    "steps on registers wider than 6 qubits and inputs whose Python container / number TYPE matters (list vs ndarray, "
+    "float width) are judged by the oracle only",
 ]
 ASSUMPTIONS = [
     "Python int arithmetic on qubit indices = Lean Nat arithmetic (indices >= 0)",
     "np.log2 / 2**x on vector lengths: every non-power-of-two length ends in an exception (model: none)",
     "simulator cases use unitary gates and unit initial states, so the Wavefunction norm check is decided identically "
     "by np.isclose and by the exact model",
+    "gates with a free symbol are evaluated at t_c01 = 1 (custom gate M + (t-1)N, built-in G(theta*t)); a product with "
+    "free symbols is only generated while its sympy expression stays below 2^15 terms (SYM_BUDGET)",
+    "a result object is 'overwritten by the caller' only when it does not share memory with an array the harness passed in",
 ]
 
 TOL = 1e-9
@@ -55,7 +65,8 @@ def _sym_partner(m):
 
 
 def _build_gate(spec, symbolic=False):
-    """the REAL gate object; `symbolic` turns a custom gate into one with a free symbol t (value 1)"""
+    """the REAL gate object; `symbolic` turns a custom gate into one with a free symbol t (value 1): M + (t-1)·N,
+    and a parametric built-in gate G(θ…) into G(θ·t…)"""
     if symbolic and "custom" in spec:
         import sympy
         oqc = _lib()[0]
@@ -64,39 +75,120 @@ def _build_gate(spec, symbolic=False):
         n = sympy.Matrix(_sym_partner(spec["m"]))
         d = oqc.CustomGateDefinition(spec["custom"] + "_s", m + (t - 1) * n, (t,))
         return d(t)
+    if symbolic and _sym_builtin(spec):
+        import sympy
+        oqc = _lib()[0]
+        t = sympy.Symbol("t_c01")
+        return getattr(oqc, spec["gate"])(*[circ.theta_of(a) * t for a in spec["angles"]])
     return circ.build_gate(spec)
+
+
+def _sym_builtin(spec):
+    return "gate" in spec and spec["gate"] != "Delay" and circ.BUILTIN_PARAMS[spec["gate"]] > 0
+
+
+def _symbolizable(o):
+    return "g" in o and ("custom" in o["g"] or _sym_builtin(o["g"]))
 
 
 def _build_op(o, symbolic=False):
     if "mphase" in o:
         MultiPhaseOperation = _lib()[1]
         return MultiPhaseOperation(tuple(circ.theta_of(a) for a in o["mphase"]))
-    return _build_gate(o["g"], symbolic)(*o["qs"])
+    qs = o["qs"]
+    if o.get("qt") == "np":     # qubit indices given as numpy integers
+        import numpy as np
+        qs = [np.int64(q) for q in qs]
+    return _build_gate(o["g"], symbolic)(*qs)
 
 
 def _is_sym(case, i, o):
+    """is operation i of a circuit built with a free symbol?  Per-operation flag "s", or the case-wide pattern "sym"
+    (all / mixed = even positions) which applies to custom gates"""
+    if "mphase" in o:
+        return False
+    if o.get("s"):
+        return _symbolizable(o)
     s = case.get("sym", "none")
-    if "mphase" in o or "custom" not in o.get("g", {}):
+    if "custom" not in o.get("g", {}):
         return False
     return s == "all" or (s == "mixed" and i % 2 == 0)
 
 
 def _build_circuit(case, cspec):
+    """"alias": equal operation specs become ONE operation object used several times; "nt": type of the declared width"""
     oqc = _lib()[0]
-    ops = [_build_op(o, _is_sym(case, i, o)) for i, o in enumerate(cspec["ops"])]
-    return oqc.Circuit(ops, n_qubits=cspec.get("n"))
+    ops, seen = [], {}
+    for i, o in enumerate(cspec["ops"]):
+        sym = _is_sym(case, i, o)
+        key = (common.canon(o), sym)
+        if cspec.get("alias") and key in seen:
+            ops.append(seen[key])
+            continue
+        ops.append(_build_op(o, sym))
+        seen[key] = ops[-1]
+    n = cspec.get("n")
+    if n is not None and cspec.get("nt") == "np":
+        import numpy as np
+        n = np.int64(n)
+    elif n is not None and cspec.get("nt") == "float":
+        n = float(n)
+    return oqc.Circuit(ops, n_qubits=n)
+
+
+def _evalc(e, memo):
+    """value of a sympy expression at t_c01 = 1 as a Python complex.  The products the library builds are DAGs whose
+    sub-expressions are shared between entries; sympy's own evalf / xreplace walk them as trees (minutes), this
+    evaluator visits every node once."""
+    import cmath
+    k = id(e)
+    v = memo.get(k)
+    if v is not None:
+        return v
+    if e.is_Symbol:
+        if e.name != "t_c01":
+            raise ValueError(f"unexpected symbol {e}")
+        v = 1.0 + 0j
+    elif e.is_Number or e.is_NumberSymbol:
+        v = complex(e)
+    elif e.is_Add:
+        v = 0j
+        for a in e.args:
+            v += _evalc(a, memo)
+    elif e.is_Mul:
+        v = 1.0 + 0j
+        for a in e.args:
+            v *= _evalc(a, memo)
+    elif e.is_Pow:
+        b, x = _evalc(e.args[0], memo), _evalc(e.args[1], memo)
+        v = complex(b ** (x.real if x.imag == 0 else x))
+    else:
+        name = type(e).__name__
+        f = {"cos": cmath.cos, "sin": cmath.sin, "exp": cmath.exp, "cosh": cmath.cosh, "sinh": cmath.sinh,
+             "tan": cmath.tan}.get(name)
+        if name == "ImaginaryUnit":
+            v = 1j
+        elif f is not None and len(e.args) == 1:
+            v = f(_evalc(e.args[0], memo))
+        else:
+            import sympy
+            v = complex(e.xreplace({sympy.Symbol("t_c01"): sympy.Integer(1)}))
+    memo[k] = v
+    return v
 
 
 def _subs(x):
     """numpy / sympy / object-array result -> numpy complex array, substituting t = 1"""
     import numpy as np
     import sympy
-    one = {sympy.Symbol("t_c01"): sympy.Integer(1)}
     if isinstance(x, sympy.MatrixBase):
-        return np.array([[complex(e.xreplace(one)) for e in x.row(i)] for i in range(x.rows)], dtype=complex)
+        memo = {}
+        return np.array([[_evalc(sympy.sympify(x[i, j]), memo) for j in range(x.cols)] for i in range(x.rows)], dtype=complex)
     a = np.asarray(x)
     if a.dtype == object:
-        flat = [complex(sympy.sympify(e).xreplace(one)) for e in a.reshape(-1)]
+        memo = {}
+        keep = [sympy.sympify(e) for e in a.reshape(-1)]   # (kept alive: the memo is keyed by object identity)
+        flat = [_evalc(e, memo) for e in keep]
         return np.array(flat, dtype=complex).reshape(a.shape)
     return a.astype(complex)
 
@@ -105,9 +197,7 @@ def _cjson(a):
     """complex numpy array -> nested lists of [re, im]"""
     import numpy as np
     a = np.asarray(a, dtype=complex)
-    if a.ndim == 1:
-        return [[float(z.real), float(z.imag)] for z in a]
-    return [[[float(z.real), float(z.imag)] for z in row] for row in a]
+    return np.stack([a.real, a.imag], axis=-1).tolist()
 
 
 def _cnp(j):
@@ -137,13 +227,14 @@ def _exact_matrix(g):
     return rows
 
 
-ERRS = (ValueError, TypeError, NotImplementedError)
-
-
 def _try(f):
+    """value of f(), or "err:<type>:<message>" when the library refuses (the oracle decides whether it may: a refusal
+    on an in-domain input is a failure; which exception type it is does not matter)"""
     try:
         return f()
-    except ERRS as e:
+    except Exception as e:
+        if type(e).__name__ == "Timeout":   # the runner's own alarm
+            raise
         return "err:" + type(e).__name__ + ":" + str(e)[:60]
 
 
@@ -161,6 +252,30 @@ def _pred(MultiPhaseOperation, p):
     return pred
 
 
+def _harness_sim(native):
+    """a simulator built on the base class whose native set is the predicate `native`; native pieces are evolved by
+    an independent bit-manipulation implementation"""
+    import numpy as np
+    oqc, MultiPhaseOperation, _split, Base, _Sym = _lib()
+    pred = _pred(MultiPhaseOperation, native)
+
+    class HarnessSimulator(Base):
+        def is_natively_supported(self, operation):
+            return pred(operation)
+
+        def _get_wavefunction_from_native_circuit(self, circuit, initial_state):
+            state = np.asarray(initial_state, dtype=complex)
+            for op in circuit.operations:
+                if isinstance(op, oqc.GateOperation):
+                    g = np.array(op.gate.matrix.tolist(), dtype=complex)
+                    state = circ.embed_reference(g, list(op.qubit_indices), circuit.n_qubits) @ state
+                else:
+                    state = state * np.exp(1j * np.asarray(op.params, dtype=float))
+            return state
+
+    return HarnessSimulator()
+
+
 def _wrapped_mats(cspec):
     """exact matrices of the operations whose gate is neither a plain built-in nor a plain custom gate"""
     out = {}
@@ -175,6 +290,8 @@ def _circuit_obs(case, cspec, with_unitary=True):
     if _is_err(c):
         return {"n": c, "len": None, "unitary": c}
     res = {"n": int(c.n_qubits), "len": len(c.operations)}
+    if cspec.get("nt") == "float":
+        res["ntype"] = type(c.n_qubits).__name__
     if with_unitary:
         u = _try(lambda: c.to_unitary())
         res["unitary"] = u if _is_err(u) else _cjson(_subs(u))
@@ -185,14 +302,13 @@ def _circuit_obs(case, cspec, with_unitary=True):
 def run_impl(case):
     import warnings
 
-    import numpy as np
     warnings.filterwarnings("ignore", category=RuntimeWarning)
     warnings.filterwarnings("ignore", category=DeprecationWarning)
     oqc, MultiPhaseOperation, split_circuit, Base, SymbolicSimulator = _lib()
     k = case["kind"]
     if k == "lift":
         def f():
-            op = _build_gate(case["g"], case.get("sym") == "all")(*case["qs"])
+            op = _build_gate(case["g"], case.get("sym") == "all" or bool(case.get("s")))(*case["qs"])
             return _cjson(_subs(op.lifted_matrix(case["n"])))
         out = {"lift": _try(f)}
         if "gate" not in case["g"] and "custom" not in case["g"]:
@@ -217,28 +333,11 @@ def run_impl(case):
             return dict(out, state=c, segments=None)
         v0 = None if case.get("v") is None else _vec(case["v"])
         if case.get("native") is None:
-            out["state"] = _try(lambda: _cjson(SymbolicSimulator().get_wavefunction(c, v0).amplitudes))
+            out["state"] = _try(lambda: _cjson(_subs(SymbolicSimulator().get_wavefunction(c, v0).amplitudes)))
             out["segments"] = None
             return out
         pred = _pred(MultiPhaseOperation, case["native"])
-
-        class HarnessSimulator(Base):
-            """native pieces are evolved by an independent bit-manipulation implementation"""
-
-            def is_natively_supported(self, operation):
-                return pred(operation)
-
-            def _get_wavefunction_from_native_circuit(self, circuit, initial_state):
-                state = np.asarray(initial_state, dtype=complex)
-                for op in circuit.operations:
-                    if isinstance(op, oqc.GateOperation):
-                        g = np.array(op.gate.matrix.tolist(), dtype=complex)
-                        state = circ.embed_reference(g, list(op.qubit_indices), circuit.n_qubits) @ state
-                    else:
-                        state = state * np.exp(1j * np.asarray(op.params, dtype=float))
-                return state
-
-        sim = HarnessSimulator()
+        sim = _harness_sim(case["native"])
         out["state"] = _try(lambda: _cjson(sim.get_wavefunction(c, v0).amplitudes))
         out["segments"] = [[bool(b), len(s.operations), int(s.n_qubits)] for b, s in split_circuit(c, pred)]
         out["jobs"] = int(sim._n_jobs_executed)
@@ -263,7 +362,236 @@ def run_impl(case):
             return {"n": int(s.n_qubits), "len": len(s.operations), "unitary": u if _is_err(u) else _cjson(_subs(u))}
         out["sum"] = _try(f)
         return out
+    if k == "hist":
+        return _run_hist(case)
     raise AssertionError("unknown kind")
+
+
+# ------------------------------------------------------------------ histories on long-lived objects
+# A history case keeps circuits (and therefore their operation and gate objects), simulators and state-vector arrays
+# alive and calls the APIs the property names on them in sequence:
+#   {"kind": "hist", "circs": [circuit spec…], "sims": [native predicate | None = bundled SymbolicSimulator, …],
+#    "vecs": [exact vector…], "steps": [step…]}
+# steps:  {"do": "unitary", "c": i}            circuit i .to_unitary()
+#         {"do": "width", "c": i}              n_qubits / number of operations
+#         {"do": "lift", "c": i, "k": k, "n": n}      operation k of circuit i .lifted_matrix(n)
+#         {"do": "apply", "c": i, "v": j, "vm": mode} the operations of circuit i applied one at a time to vector j
+#         {"do": "apply1", "c": i, "k": k, "v": j, "vm": mode}
+#         {"do": "sim", "s": m, "c": i, "v": j | None, "vm": mode}   simulator m .get_wavefunction(circuit i, vector j)
+#         {"do": "add", "a": i, "b": j}        circuit i + circuit j  -> new circuit (next index)
+#         {"do": "add_op", "a": i, "c": j, "k": k}   circuit i + operation k of circuit j -> new circuit
+#         {"do": "rebuild", "c": i}            circuit i is replaced by an equal, newly built object (old one dropped)
+#         {"do": "rebuild", "c": i, "as": j}   slot i is replaced by a newly built copy of circuit j (old object dropped)
+#         {"do": "setvec", "v": j, "from": l}  the long-lived arrays of vector j are overwritten IN PLACE with vector l
+# "poison": true on a result step: the returned matrix / vector is overwritten in place by the caller afterwards.
+# vector modes: "c" one long-lived complex array per vector, "fresh" a new array per call, "f" float64 / "i" int64
+# arrays (when the contents allow), "ro" read-only, "nc" non-contiguous view, "list" a Python list.
+RESULT_STEPS = ("unitary", "lift", "apply", "apply1", "sim")
+
+
+def _mat_vec(pool, content, j, vm):
+    import numpy as np
+    z = content[j]
+    if vm == "fresh":
+        return np.array(z, dtype=complex)
+    if vm == "list":
+        return [complex(x) for x in z]
+    if vm == "f" and not np.all(z.imag == 0):
+        vm = "c"
+    if vm == "i" and not (np.all(z.imag == 0) and np.all(z.real == np.round(z.real)) and np.all(np.abs(z.real) < 2 ** 50)):
+        vm = "c"
+    key = (j, vm)
+    if key not in pool:
+        if vm == "f":
+            a = np.array(z.real, dtype=np.float64)
+        elif vm == "i":
+            a = np.array(np.round(z.real), dtype=np.int64)
+        elif vm == "nc":
+            buf = np.zeros(2 * len(z), dtype=complex)
+            a = buf[::2]
+            a[:] = z
+        else:
+            a = np.array(z, dtype=complex)
+            if vm == "ro":
+                a.flags.writeable = False
+        pool[key] = a
+    return pool[key]
+
+
+def _poison(res, pool):
+    """the caller overwrites what it was given (never an array it passed in itself)"""
+    import numpy as np
+    import sympy
+    x = res
+    if hasattr(res, "amplitudes") and not isinstance(res, (np.ndarray, sympy.MatrixBase)):
+        x = res.amplitudes
+    if isinstance(x, np.ndarray):
+        if any(isinstance(a, np.ndarray) and np.shares_memory(x, a) for a in pool.values()):
+            return False
+        if not x.flags.writeable:
+            return False
+        x[...] = 7.5
+        return True
+    if isinstance(x, sympy.MatrixBase):
+        try:
+            x.fill(sympy.Rational(15, 2))
+            return True
+        except (TypeError, AttributeError):
+            return False
+    return False
+
+
+def _read(res):
+    import numpy as np
+    import sympy
+    if hasattr(res, "amplitudes") and not isinstance(res, (np.ndarray, sympy.MatrixBase)):
+        res = res.amplitudes
+    return _cjson(_subs(res))
+
+
+def _spec_sum(a, b):
+    """the specification of a + b: operations concatenated, width the larger of the two"""
+    na, nb = _width(a), _width(b)
+    n = None if (na is None or nb is None) else (max(na, nb) or None)
+    return {"n": n, "ops": a["ops"] + b["ops"], "bad": na is None or nb is None}
+
+
+def _hist_walk(case):
+    """per step: (step, circuit spec it acts on | None, second operand spec | None, exact vector | None) — pure
+    bookkeeping on the case, nothing from the implementation"""
+    specs = list(case["circs"])
+    content = list(case["vecs"])
+    rows = []
+    for st in case["steps"]:
+        do = st["do"]
+        if do == "setvec":
+            content[st["v"]] = case["vecs"][st["from"]]
+            rows.append((st, None, None, None))
+        elif do == "rebuild":
+            if "as" in st:
+                specs[st["c"]] = specs[st["as"]]
+            rows.append((st, None, None, None))
+        elif do == "add":
+            a, b = specs[st["a"]], specs[st["b"]]
+            specs.append(_spec_sum(a, b))
+            rows.append((st, a, b, None))
+        elif do == "add_op":
+            a, b = specs[st["a"]], {"n": None, "ops": [specs[st["c"]]["ops"][st["k"]]]}
+            specs.append(_spec_sum(a, b))
+            rows.append((st, a, b, None))
+        else:
+            rows.append((st, specs[st["c"]], None, content[st["v"]] if st.get("v") is not None else None))
+    return rows
+
+
+def _run_hist(case):
+    import numpy as np
+    oqc, MultiPhaseOperation, split_circuit, Base, SymbolicSimulator = _lib()
+    env = [_try(lambda cs=cs: _build_circuit(case, cs)) for cs in case["circs"]]
+    specs = list(case["circs"])
+    sims = [SymbolicSimulator() if nat is None else _harness_sim(nat) for nat in case["sims"]]
+    orig = [_vec(v) for v in case["vecs"]]
+    content = [a.copy() for a in orig]
+    pool, kept, outs = {}, {}, []
+    overwritten = set()
+    wrapped = [_wrapped_mats(cs) for cs in case["circs"]]
+
+    def vector(st, o):
+        if st.get("v") is None:
+            return None
+        a = _mat_vec(pool, content, st["v"], st.get("vm", "c"))
+        now = np.array(a, dtype=complex)
+        if now.shape != content[st["v"]].shape or not np.array_equal(now, content[st["v"]]):
+            o["vin"] = _cjson(now)  # what is actually passed differs from what the harness put there
+        return a
+
+    c = call = res = None
+    for si, st in enumerate(case["steps"]):
+        do = st["do"]
+        o = {}
+        if do in ("rebuild",):
+            # drop the old object first and try to get the new one at its address (caches keyed by object identity)
+            old_id = id(env[st["c"]])
+            c = call = res = None   # (locals of earlier steps must not keep the old circuit alive)
+            env[st["c"]] = None
+            if "as" in st:
+                specs[st["c"]] = specs[st["as"]]
+            hold = []
+            for _attempt in range(30):
+                new = _try(lambda: _build_circuit(case, specs[st["c"]]))
+                if _is_err(new) or id(new) == old_id:
+                    break
+                hold.append(new)
+            env[st["c"]] = new
+            del hold
+        elif do == "setvec":
+            content[st["v"]] = orig[st["from"]].copy()
+            overwritten.add(st["v"])
+            for (j, vm) in list(pool):
+                if j != st["v"]:
+                    continue
+                a = pool[(j, vm)]
+                z = content[j]
+                ok = (vm in ("c", "ro", "nc")) or (vm == "f" and np.all(z.imag == 0)) or \
+                     (vm == "i" and np.all(z.imag == 0) and np.all(z.real == np.round(z.real)))
+                if not ok or len(a) != len(z):
+                    del pool[(j, vm)]
+                    continue
+                if vm == "ro":
+                    a.flags.writeable = True
+                a[:] = z.real if vm in ("f", "i") else z
+                if vm == "ro":
+                    a.flags.writeable = False
+        elif do in ("add", "add_op"):
+            a = env[st["a"]]
+            b = env[st["b"]] if do == "add" else env[st["c"]]
+            if _is_err(a) or _is_err(b):
+                env.append(a if _is_err(a) else b)
+                o["r"] = env[-1]
+            else:
+                r = _try(lambda: a + (b if do == "add" else b.operations[st["k"]]))
+                env.append(r)
+                o["r"] = r if _is_err(r) else {"n": int(r.n_qubits), "len": len(r.operations)}
+            sb = specs[st["b"]] if do == "add" else {"n": None, "ops": [specs[st["c"]]["ops"][st["k"]]]}
+            specs.append(_spec_sum(specs[st["a"]], sb))
+        else:
+            c = env[st["c"]]
+            if _is_err(c):
+                o["r"] = c
+            elif do == "width":
+                o["r"] = {"n": int(c.n_qubits), "len": len(c.operations)}
+            else:
+                def call():
+                    if do == "unitary":
+                        return c.to_unitary()
+                    if do == "lift":
+                        return c.operations[st["k"]].lifted_matrix(st["n"])
+                    v = vector(st, o)
+                    if do == "apply1":
+                        return c.operations[st["k"]].apply(v)
+                    if do == "apply":
+                        state = v
+                        for op in c.operations:
+                            state = op.apply(state)
+                        return state
+                    if do == "sim":
+                        return sims[st["s"]].get_wavefunction(c, v)
+                    raise AssertionError(do)
+                res = _try(call)
+                o["r"] = res if _is_err(res) else _read(res)
+                if not _is_err(res):
+                    if st.get("poison"):
+                        o["poisoned"] = _poison(res, pool)
+                    else:
+                        kept[si] = (res, st.get("v"))
+        outs.append(o)
+    # the objects handed out earlier must still say what they said (unless the caller overwrote them or an array
+    # they may legitimately share memory with)
+    for si, (res, vj) in kept.items():
+        if vj is not None and vj in overwritten:
+            continue
+        outs[si]["late"] = _try(lambda: _read(res))
+    return {"steps": outs, "wrapped": wrapped}
 
 
 # ------------------------------------------------------------------ model requests
@@ -292,6 +620,8 @@ def requests(case, out):
             o = _model_op({"g": case["g"], "qs": case["qs"]}, out.get("wrapped"), 0)
             return [("lift", dict(o, n=case["n"]))]
         if k == "circuit":
+            if case.get("nt") == "float":
+                return []   # known finding declared-width-integral-float: the model's widths are naturals
             mc = _model_circ(case, out.get("wrapped", {}))
             return [("circuit", mc), ("apply_all", {"ops": mc["ops"], "v": case["v"]})]
         if k == "sim":
@@ -301,9 +631,97 @@ def requests(case, out):
             return [("add_circuit", {"a": _model_circ(case["a"], out["wa"]), "b": _model_circ(case["b"], out["wb"])})]
         if k == "add_op":
             return [("add_op", {"a": _model_circ(case["a"], out["wa"]), "op": _model_op(case["op"], out["wb"], 0)})]
+        if k == "hist":
+            return [r for _, r in _hist_plan(case, out)]
     except KeyError:
         return []
     return []
+
+
+MODEL_MAX_WIDTH = 6   # the exact model multiplies 2^n x 2^n matrices over Q(zeta_8): wider steps are oracle-only
+
+
+def _hist_plan(case, out):
+    """[(step index, model request)] for the steps the model answers"""
+    if not isinstance(out, dict) or "steps" not in out:
+        return []
+    mops = []
+    for cs, w in zip(case["circs"], out["wrapped"]):
+        try:
+            mops.append([_model_op(o, w, i) for i, o in enumerate(cs["ops"])])
+        except KeyError:
+            mops.append(None)
+    plan = []
+    for si, (st, a, b, v) in enumerate(_hist_walk(case)):
+        do = st["do"]
+        if do == "rebuild" and "as" in st:
+            mops[st["c"]] = mops[st["as"]]
+        if do == "setvec" or do == "rebuild":
+            continue
+        if do in ("add", "add_op"):
+            ma = mops[st["a"]]
+            mb = mops[st["b"]] if do == "add" else (None if mops[st["c"]] is None else [mops[st["c"]][st["k"]]])
+            ok = ma is not None and mb is not None
+            mops.append(ma + mb if ok else None)
+            wide = max(_width(a) or 0, _width(b) or 0) > MODEL_MAX_WIDTH
+            if ok and not wide:
+                if do == "add":
+                    plan.append((si, ("add_circuit", {"a": {"n": a.get("n"), "ops": ma}, "b": {"n": b.get("n"), "ops": mb}})))
+                else:
+                    plan.append((si, ("add_op", {"a": {"n": a.get("n"), "ops": ma}, "op": mb[0]})))
+            continue
+        m = mops[st["c"]]
+        n = _width(a)
+        if m is None or n is None or n > MODEL_MAX_WIDTH or "vin" in out["steps"][si] or a.get("nt") == "float":
+            continue
+        if st.get("vm") == "list" and st.get("v") is not None and _has_sym(case, a):
+            continue  # known finding symbolic-gate-list-vector: the model has vectors, not Python container types
+        mc = {"n": a.get("n"), "ops": m}
+        if do in ("unitary", "width"):
+            plan.append((si, ("circuit", mc)))
+        elif do == "lift":
+            if st["n"] <= MODEL_MAX_WIDTH and "mphase" not in a["ops"][st["k"]]:
+                plan.append((si, ("lift", dict(m[st["k"]], n=st["n"]))))
+        elif do == "apply":
+            plan.append((si, ("apply_all", {"ops": m, "v": v})))
+        elif do == "apply1":
+            plan.append((si, ("apply_all", {"ops": [m[st["k"]]], "v": v})))
+        elif do == "sim":
+            if v is not None and len(v) != 2 ** n:
+                continue  # outside the domain (the harness simulator's native part sizes the state by the circuit)
+            plan.append((si, ("wavefunction", dict(mc, v=v, native=case["sims"][st["s"]]))))
+    return plan
+
+
+def _cmp_hist(case, out, resp):
+    plan = _hist_plan(case, out)
+    if len(plan) != len(resp):
+        return f"history: {len(plan)} model requests but {len(resp)} responses"
+    for (si, _req), r in zip(plan, resp):
+        st = case["steps"][si]
+        do = st["do"]
+        got = out["steps"][si].get("r")
+        what = f"history step {si} ({do})"
+        if do == "width":
+            m = _cmp_circ(what, got, r, skip_unitary=True)
+        elif do == "unitary":
+            if r == "err":
+                m = None if _is_err(got) else f"{what}: implementation {str(got)[:80]} model err"
+            else:
+                m = _cmp_matrix(what, got, r["unitary"])
+        elif do in ("add", "add_op"):
+            m = _cmp_circ(what, got, r, skip_unitary=True)
+        elif do == "lift":
+            m = _cmp_matrix(what, got, r)
+        elif do in ("apply", "apply1"):
+            m = _cmp_matrix(what, got, r, vector=True)
+        else:
+            if isinstance(r, dict):
+                r = r["state"]
+            m = _cmp_matrix(what, got, r, vector=True)
+        if m:
+            return m
+    return None
 
 
 def _model_np(resp):
@@ -370,6 +788,8 @@ def compare(case, out, resp):
         return _cmp_matrix("BaseWavefunctionSimulator.get_wavefunction", out["state"], r["state"], vector=True)
     if k in ("add", "add_op"):
         return _cmp_circ("Circuit.__add__", out["sum"], resp[0])
+    if k == "hist":
+        return _cmp_hist(case, out, resp)
     return None
 
 
@@ -419,11 +839,24 @@ def _op_matrix(o, n):
     return circ.embed_reference(_gate_np(o), o["qs"], n)
 
 
+_product_memo = {}
+
+
 def _product(ops, n):
+    """reference matrix of a program: each operation's own matrix on its qubits, multiplied in program order"""
     import numpy as np
+    key = None
+    if n >= 7:  # (wide registers only: the same program is asked for several times within one history)
+        key = (n, common.canon(ops))
+        if key in _product_memo:
+            return _product_memo[key].copy()
     u = np.eye(2 ** n, dtype=complex)
     for o in ops:
         u = _op_matrix(o, n) @ u
+    if key is not None:
+        if len(_product_memo) > 4:
+            _product_memo.clear()
+        _product_memo[key] = u.copy()
     return u
 
 
@@ -431,22 +864,163 @@ def _sig_mixed(case, got):
     return case.get("sym") == "mixed" and _is_err(got) and "invalid literal" in got
 
 
+def _valid(spec):
+    """width of a circuit inside the property's domain (>= 1 qubit, every operation well-formed), else None"""
+    if spec.get("bad"):
+        return None
+    n = _width(spec)
+    if n is None or n < 1 or not all(_op_ok(o, n) for o in spec["ops"]):
+        return None
+    return n
+
+
+def _has_sym(case, spec):
+    return any(_is_sym(case, i, o) for i, o in enumerate(spec["ops"]))
+
+
+def _chk_lift(o, n, got, where=""):
+    if not (n >= 1 and "mphase" not in o and _op_ok(o, n)):
+        return None
+    if _is_err(got):
+        return ("lift-raise", f"{where}lifted_matrix({n}) of a valid operation on {o['qs']} raised {got}")
+    if not _close(_cnp(got), circ.embed_reference(_gate_np(o), o["qs"], n)):
+        return ("lift-embedding", f"{where}gate on qubits {o['qs']} of {n}: lifted matrix is not the gate on exactly those "
+                                  "qubits and identity elsewhere")
+    return None
+
+
+def _float_width(spec, got):
+    return spec.get("nt") == "float" and _is_err(got) and "cannot be interpreted as an integer" in got
+
+
+def _chk_unitary(case, spec, got, where=""):
+    n = _valid(spec)
+    if n is None or not spec["ops"] or any("mphase" in o for o in spec["ops"]):
+        return None
+    if _float_width(spec, got):
+        return ("declared-width-integral-float", where + "Circuit(ops, n_qubits=%r) is accepted (the constructor checks that "
+                "the value is integral) but keeps the float, and to_unitary() raised %s" % (float(n), got))
+    if _sig_mixed(case, got):
+        return ("mixed-symbolic-numeric-unitary",
+                where + "to_unitary() of a circuit mixing a gate with free symbols and a gate without raised " + got)
+    if _is_err(got):
+        return ("unitary-raise", f"{where}to_unitary() of a valid circuit raised {got}")
+    if not _close(_cnp(got), _product(spec["ops"], n)):
+        return ("unitary-product", where + "to_unitary() is not the ordered product of the gates on their qubits")
+    return None
+
+
+def _chk_apply(ops, n, v, got, where=""):
+    """ops applied one at a time to the vector v (numpy) of length 2^n"""
+    if n < 1 or len(v) != 2 ** n or not all(_op_ok(o, n) for o in ops):
+        return None
+    if _is_err(got):
+        return ("apply-raise", f"{where}step-wise apply on a valid circuit raised {got}")
+    if not _close(_cnp(got), _product(ops, n) @ v):
+        return ("apply-product", where + "applying the operations one at a time differs from the circuit matrix times the state")
+    return None
+
+
+def _chk_sim(spec, v, got, native, where=""):
+    import numpy as np
+    n = _valid(spec)
+    if n is None:
+        return None
+    v0 = np.eye(2 ** n, dtype=complex)[:, 0] if v is None else v
+    if len(v0) != 2 ** n:
+        return None
+    want = _product(spec["ops"], n) @ v0
+    if abs(float(np.sum(np.abs(want) ** 2)) - 1.0) > 1e-9:
+        return None  # the Wavefunction constructor rejects it: outside the domain of a final *state*
+    if _float_width(spec, got):
+        return ("declared-width-integral-float", where + "Circuit(ops, n_qubits=%r) is accepted but keeps the float, and "
+                "get_wavefunction raised %s" % (float(n), got))
+    if _is_err(got):
+        return ("simulator-raise", f"{where}get_wavefunction on a valid circuit raised {got}")
+    if not _close(_cnp(got), want):
+        return ("simulator-state", where + "simulator final state differs from the circuit matrix applied to the initial state "
+                                   f"(native={native})")
+    return None
+
+
+def _chk_sum(a, b, got, where=""):
+    """width / length of a + b (the matrix of the sum is checked where it is asked for)"""
+    na, nb = _width(a), _width(b)
+    if na is None or nb is None or any("mphase" in o for o in a["ops"] + b["ops"]):
+        return None
+    if not all(_op_ok(o, na) for o in a["ops"]) or not all(_op_ok(o, nb) for o in b["ops"]):
+        return None
+    if _is_err(got):
+        return ("add-raise", f"{where}adding valid circuits raised {got}")
+    if got["n"] != max(na, nb):
+        return ("add-width", f"{where}width of the concatenation is {got['n']}, the larger of {na} and {nb} is {max(na, nb)}")
+    if got["len"] != len(a["ops"]) + len(b["ops"]):
+        return ("add-length", where + "concatenation lost or invented an operation")
+    return None
+
+
+def _oracle_hist(case, out):
+    outs = out["steps"]
+    for si, (st, a, b, v) in enumerate(_hist_walk(case)):
+        do = st["do"]
+        if do in ("setvec", "rebuild"):
+            continue
+        o = outs[si]
+        got = o.get("r")
+        where = f"history step {si} ({do}" + (", after the caller overwrote an earlier result" if any(
+            x.get("poisoned") for x in outs[:si]) else "") + "): "
+        if do in ("add", "add_op"):
+            res = _chk_sum(a, b, got, where)
+        elif do == "width":
+            n = _valid(a)
+            res = None
+            if n is not None and (_is_err(got) or got["n"] != n or got["len"] != len(a["ops"])):
+                res = ("circuit-width", f"{where}n_qubits/len {got} expected {n}/{len(a['ops'])}")
+        elif do == "unitary":
+            res = _chk_unitary(case, a, got, where)
+        elif do == "lift":
+            res = _chk_lift(a["ops"][st["k"]], st["n"], got, where)
+        else:
+            vv = None
+            if v is not None:
+                vv = _cnp(o["vin"]) if "vin" in o else _vec(v)
+            if st.get("vm") == "list" and _has_sym(case, a) and _is_err(got) and "unsupported operand" in got:
+                res = ("symbolic-gate-list-vector", where + "a gate with a free symbol applied to a state given as a Python "
+                       "list raised " + got)
+            elif do == "sim":
+                res = _chk_sim(a, vv, got, case["sims"][st["s"]], where)
+            elif vv is None:
+                res = None
+            elif do == "apply1":
+                ln = len(vv)
+                n1 = ln.bit_length() - 1 if ln >= 2 and not ln & (ln - 1) else None
+                res = None if n1 is None else _chk_apply([a["ops"][st["k"]]], n1, vv, got, where)
+            else:
+                n = _valid(a)
+                res = None if n is None else _chk_apply(a["ops"], n, vv, got, where)
+        if res:
+            return res
+    # second pass: what was handed out earlier must still hold the value it was handed out with
+    for si, st in enumerate(case["steps"]):
+        o = outs[si]
+        got = o.get("r")
+        if "late" in o and not _is_err(got):
+            late = o["late"]
+            if _is_err(late) or not _close(_cnp(late), _cnp(got)):
+                return ("result-changed-later", f"history step {si} ({st['do']}): the object returned by this call no longer "
+                                                "holds the value it was returned with after later calls on the same objects")
+    return None
+
+
 def oracle(case, out):
     import numpy as np
     k = case["kind"]
     if isinstance(out, dict) and "exc" in out:
         return ("unexpected-exception", f"{k}: implementation raised {out['exc']}: {out['msg']}")
+    if k == "hist":
+        return _oracle_hist(case, out)
     if k == "lift":
-        n = case["n"]
-        if not (n >= 1 and _op_ok(case, n)):
-            return None
-        got = out["lift"]
-        if _is_err(got):
-            return ("lift-raise", f"lifted_matrix({n}) of a valid operation on {case['qs']} raised {got}")
-        if not _close(_cnp(got), circ.embed_reference(_gate_np(case), case["qs"], n)):
-            return ("lift-embedding", f"gate on qubits {case['qs']} of {n}: lifted matrix is not the gate on exactly those "
-                                      "qubits and identity elsewhere")
-        return None
+        return _chk_lift(case, case["n"], out["lift"])
     if k == "circuit":
         n = _width(case)
         if n is None or n < 1 and case["ops"]:
@@ -455,17 +1029,12 @@ def oracle(case, out):
             return None
         if out["n"] != n:
             return ("circuit-width", f"n_qubits {out['n']} expected {n}")
-        u = _product(case["ops"], n)
         if case["ops"]:
-            got = out["unitary"]
-            if _sig_mixed(case, got):
-                return ("mixed-symbolic-numeric-unitary",
-                        "to_unitary() of a circuit mixing a gate with free symbols and a gate without raised " + got)
-            if _is_err(got):
-                return ("unitary-raise", f"to_unitary() of a valid circuit raised {got}")
-            if not _close(_cnp(got), u):
-                return ("unitary-product", "to_unitary() is not the ordered product of the gates on their qubits")
+            res = _chk_unitary(case, case, out["unitary"])
+            if res:
+                return res
         if len(case["v"]) == 2 ** n:
+            u = _product(case["ops"], n)
             got = out["applied"]
             if _is_err(got):
                 return ("apply-raise", f"step-wise apply on a valid circuit raised {got}")
@@ -476,19 +1045,7 @@ def oracle(case, out):
         n = _width(case)
         if n is None or n < 1 or not all(_op_ok(o, n) for o in case["ops"]):
             return None
-        v0 = np.eye(2 ** n, dtype=complex)[:, 0] if case.get("v") is None else _vec(case["v"])
-        if len(v0) != 2 ** n:
-            return None
-        want = _product(case["ops"], n) @ v0
-        if abs(float(np.sum(np.abs(want) ** 2)) - 1.0) > 1e-9:
-            return None  # the Wavefunction constructor rejects it: outside the domain of a final *state*
-        got = out["state"]
-        if _is_err(got):
-            return ("simulator-raise", f"get_wavefunction on a valid circuit raised {got}")
-        if not _close(_cnp(got), want):
-            return ("simulator-state", "simulator final state differs from the circuit matrix applied to the initial state "
-                                       f"(native={case.get('native')})")
-        return None
+        return _chk_sim(case, None if case.get("v") is None else _vec(case["v"]), out["state"], case.get("native"))
     if k in ("add", "add_op"):
         a = case["a"]
         b = case["b"] if k == "add" else {"n": None, "ops": [case["op"]]}
@@ -501,12 +1058,9 @@ def oracle(case, out):
             return None
         n = max(na, nb)
         got = out["sum"]
-        if _is_err(got):
-            return ("add-raise", f"adding valid circuits raised {got}")
-        if got["n"] != n:
-            return ("add-width", f"width of the concatenation is {got['n']}, the larger of {na} and {nb} is {n}")
-        if got["len"] != len(a["ops"]) + len(b["ops"]):
-            return ("add-length", "concatenation lost or invented an operation")
+        res = _chk_sum(a, b, got)
+        if res:
+            return res
         if a["ops"] or b["ops"]:
             if n < 1:
                 return None
@@ -551,16 +1105,24 @@ def _monomial(rng, k):
     return {"custom": _name(), "m": m}
 
 
-def _wrapped(rng, max_k):
+def _wrapped(rng, max_k, unitary=True):
     base = rng.choice([{"gate": "X", "angles": []}, {"gate": "S", "angles": []}, {"gate": "Y", "angles": []},
                        {"gate": "CNOT", "angles": []}, {"gate": "ISWAP", "angles": []}, _monomial(rng, 1)])
     kb = circ.spec_num_qubits(base)
-    choices = ["dagger"]
+    choices = ["dagger", "power"]
     if kb + 1 <= max_k:
-        choices += ["controlled", "controlled"]
+        choices += ["controlled", "controlled", "controlled"]
+    if not unitary:
+        choices += ["exp"]
     w = rng.choice(choices)
     if w == "dagger":
         return {"dagger": base}
+    if w == "power":
+        return {"power": base, "e": rng.choice([2, 3, -1])}
+    if w == "exp":
+        # (sympy's Matrix.exp is only usable on the diagonalisable 2x2 built-ins)
+        return {"exp": rng.choice([{"gate": "X", "angles": []}, {"gate": "Y", "angles": []}, {"gate": "Z", "angles": []},
+                                   {"gate": "S", "angles": []}])}
     return {"controlled": base, "k": rng.randrange(1, max_k - kb + 1)}
 
 
@@ -582,7 +1144,10 @@ def _any_gate(rng, n, max_arity, nonunitary_budget):
 
 
 def _op(rng, n, g):
-    return {"g": g, "qs": rng.sample(range(n), circ.spec_num_qubits(g))}
+    o = {"g": g, "qs": rng.sample(range(n), circ.spec_num_qubits(g))}
+    if rng.random() < 0.06:
+        o["qt"] = "np"
+    return o
 
 
 def _gvec(rng, n):
@@ -601,6 +1166,13 @@ def _unit_vec(rng, n):
 
 
 def _mphase(rng, n):
+    r = rng.random()
+    if r < 0.2:
+        # the same phase on every component (a "global" phase is still part of the matrix)
+        a = circ.rat_angle(rng, 0.0)
+        return {"mphase": [a for _ in range(2 ** n)]}
+    if r < 0.27:
+        return {"mphase": [[1, 0] for _ in range(2 ** n)]}
     return {"mphase": [circ.rat_angle(rng, 0.3) for _ in range(2 ** n)]}
 
 
@@ -616,12 +1188,459 @@ def _circuit(rng, n, length, max_arity=3, budget=3, declared=None):
     return {"n": rng.choice([None, n]) if declared is None else declared, "ops": ops}
 
 
+SYM_BUDGET = 15
+
+
+def _sym_cost(ops, n, vector=False):
+    """log2 of the size of the sympy expressions a product with free symbols builds (every later factor multiplies the
+    number of terms of an entry by the 2^arity non-zeros of a row; there are 4^n entries, 2^n for a state)"""
+    return sum(len(o["qs"]) for o in ops if "qs" in o) + (n if vector else 2 * n)
+
+
+def _limit_sym(ops, n, vector=False, times=1):
+    """drop the free symbols of a program whose symbolic product would take sympy minutes"""
+    base = n if vector else 2 * n
+    if any(o.get("s") for o in ops) and times * (_sym_cost(ops, n, vector) - base) + base > SYM_BUDGET:
+        for o in ops:
+            o.pop("s", None)
+    return ops
+
+
+def _mixed_ops(rng, n, length, unitary=False):
+    """operations of which some carry a free symbol, with at least one run of >= 2 consecutive numeric ones"""
+    for _ in range(20):
+        ops = []
+        for _j in range(length):
+            r = rng.random()
+            if r < 0.4:
+                k = rng.randrange(1, min(n, 2) + 1)
+                o = _op(rng, n, _monomial(rng, k) if unitary else _gauss(rng, k, 1))
+            elif r < 0.65:
+                names = [nm for nm in ROTATIONS if circ.BUILTIN_QUBITS[nm] <= n]
+                o = _op(rng, n, circ.random_builtin_spec(rng, names))
+            else:
+                o = _op(rng, n, _unitary_gate(rng, n, 2))
+            if _symbolizable(o) and rng.random() < 0.45 and sum(1 for x in ops if x.get("s")) < 3:
+                o["s"] = True
+            if len(ops) >= 3 and _sym_cost(ops + [o], n) > SYM_BUDGET:
+                break
+            ops.append(o)
+        flags = [bool(o.get("s")) for o in ops]
+        if any(flags) and any(not a and not b for a, b in zip(flags, flags[1:])):
+            return ops
+    return ops
+
+
+def _exotic_vec(rng, n):
+    """mostly a random Gaussian-rational vector; sometimes the zero vector, a single (non-unit) entry, huge or tiny entries"""
+    r = rng.random()
+    if r < 0.7:
+        return _gvec(rng, n)
+    if r < 0.78:
+        return [[0, 0] for _ in range(2 ** n)]
+    if r < 0.9:
+        return _basis_vec(n, rng.randrange(2 ** n), (rng.randrange(-3, 4) or 2, rng.randrange(-3, 4)))
+    big = rng.choice([2 ** 40, Fraction(1, 2 ** 20)])
+    return [[rat(Fraction(rng.randrange(-4, 5)) * big), rat(Fraction(rng.randrange(-4, 5)) * big)] for _ in range(2 ** n)]
+
+
 def _sim_case(rng, n, length, native):
     ops = []
     for _ in range(length):
         ops.append(_mphase(rng, n) if rng.random() < 0.3 else _op(rng, n, _unitary_gate(rng, n)))
+    if not native and rng.random() < 0.35:
+        # the bundled simulator on a circuit with free symbols (numeric and symbolic paths in one run)
+        for o in ops:
+            if _symbolizable(o) and rng.random() < 0.5:
+                o["s"] = True
+        _limit_sym(ops, n, vector=True)
     return {"kind": "sim", "n": n, "ops": ops, "v": rng.choice([None, _unit_vec(rng, n)]),
             "native": _native(rng, n) if native else None}
+
+
+# ------------------------------------------------------------------ generators of histories
+def _sibling_gate(rng, g, unitary):
+    """a gate of the same arity (and, where the library lets two gates share one, the same NAME) with other content"""
+    k = circ.spec_num_qubits(g)
+    if "custom" in g:
+        h = _monomial(rng, k) if unitary else _gauss(rng, k, 2)
+        for _ in range(5):
+            if h["m"] != g["m"]:
+                break
+            h = _monomial(rng, k) if unitary else _gauss(rng, k, 2)
+        return dict(h, custom=g["custom"])
+    if "controlled" in g:
+        b = g["controlled"]
+        kb = circ.spec_num_qubits(b)
+        pool = ([{"gate": nm, "angles": []} for nm in ("X", "Y", "Z", "S", "H")] if kb == 1 else
+                [{"gate": nm, "angles": []} for nm in ("CNOT", "CZ", "ISWAP", "SWAP")])
+        return {"controlled": rng.choice([x for x in pool if x != b]), "k": g["k"]}
+    if "exp" in g:
+        return {"exp": rng.choice([x for x in ({"gate": nm, "angles": []} for nm in ("X", "Y", "Z", "S")) if x != g["exp"]])}
+    if "gate" in g and circ.BUILTIN_PARAMS[g["gate"]] > 0:
+        return {"gate": g["gate"], "angles": [circ.rat_angle(rng, 0.0) for _ in g["angles"]]}
+    names = [nm for nm in EXACT_UNITARY if circ.BUILTIN_QUBITS[nm] == k and nm != g.get("gate")]
+    return {"gate": rng.choice(names), "angles": []} if names else _monomial(rng, k)
+
+
+def _hist_gate(rng, n, unitary, max_arity=3):
+    r = rng.random()
+    if r < 0.3 and n >= 2:
+        return _wrapped(rng, min(n, max_arity + 1), unitary)
+    if r < 0.6:
+        k = rng.randrange(1, min(n, max_arity) + 1)
+        return _monomial(rng, k) if unitary else _gauss(rng, k, 2)
+    return _unitary_gate(rng, n, max_arity)
+
+
+def _hist_circuit(rng, n, length, unitary=True, mphase=False, declared=None, sym=0.0, vector=False):
+    ops = []
+    for _ in range(length):
+        if mphase and rng.random() < 0.25:
+            ops.append(_mphase(rng, n))
+        else:
+            o = _op(rng, n, _hist_gate(rng, n, unitary))
+            # (sympy products of several large symbolic matrices take minutes: at most two symbolic gates of arity <= 2)
+            if sym and _symbolizable(o) and len(o["qs"]) <= 2 and rng.random() < sym and sum(1 for x in ops if x.get("s")) < 2:
+                o["s"] = True
+            ops.append(o)
+    c = {"n": declared if declared is not None else rng.choice([None, n])}
+    if ops and rng.random() < 0.35:
+        # the same operation again (an equal one, or with "alias" the very same object), next to it or further away
+        i = rng.randrange(len(ops))
+        ops.insert(i + 1 if rng.random() < 0.6 else rng.randrange(i, len(ops) + 1), dict(ops[i]))
+        if rng.random() < 0.5:
+            c["alias"] = True
+    if c["n"] is not None and rng.random() < 0.15:
+        c["nt"] = "np"
+    _limit_sym(ops, declared or n, vector=vector)
+    c["ops"] = ops
+    return c
+
+
+def _sibling_circuit(rng, c, n, unitary, how):
+    """a circuit differing from c in exactly one component"""
+    ops = [dict(o) for o in c["ops"]]
+    gates = [i for i, o in enumerate(ops) if "g" in o]
+    if how == "gate" and gates:
+        # preferably a gate whose name does not determine its content (custom definitions, "Control", "Exponential")
+        shared = [i for i in gates if any(k in ops[i]["g"] for k in ("custom", "controlled", "exp"))]
+        i = rng.choice(shared if shared and rng.random() < 0.8 else gates)
+        ops[i] = dict(ops[i], g=_sibling_gate(rng, ops[i]["g"], unitary))
+    elif how == "qubits" and gates:
+        i = rng.choice(gates)
+        qs = ops[i]["qs"]
+        new = list(qs)
+        for _ in range(6):
+            new = rng.sample(range(n), len(qs)) if rng.random() < 0.5 or len(qs) == 1 else rng.sample(qs, len(qs))
+            if new != qs:
+                break
+        ops[i] = dict(ops[i], qs=new)
+    elif how == "phase" and any("mphase" in o for o in ops):
+        i = rng.choice([i for i, o in enumerate(ops) if "mphase" in o])
+        ph = list(ops[i]["mphase"])
+        ph[rng.randrange(len(ph))] = circ.rat_angle(rng, 0.0)
+        ops[i] = {"mphase": ph}
+    elif how == "order" and len(ops) >= 2:
+        i = rng.randrange(len(ops) - 1)
+        ops[i], ops[i + 1] = ops[i + 1], ops[i]
+    elif how == "extra":
+        ops.insert(rng.randrange(len(ops) + 1), _op(rng, n, _hist_gate(rng, n, unitary)))
+    elif how == "symbolic" and any(_symbolizable(o) for o in ops):
+        i = rng.choice([i for i, o in enumerate(ops) if _symbolizable(o)])
+        ops[i] = dict(ops[i], s=not ops[i].get("s"))
+    else:
+        # "width": one more idle (last) qubit, nothing else; a phase operation keeps its meaning: diag (x) 1
+        ops = [{"mphase": [a for a in o["mphase"] for _ in (0, 1)]} if "mphase" in o else o for o in ops]
+        return dict(c, n=n + 1, ops=ops)
+    return dict(c, ops=ops)
+
+
+VMODES = ["c", "c", "fresh", "f", "i", "ro", "nc", "list"]
+
+
+def _vm(rng, sym=False):
+    return rng.choice([m for m in VMODES if not (sym and m == "list")])
+
+
+def _basis_vec(n, i, amp=(1, 0)):
+    v = [[0, 0] for _ in range(2 ** n)]
+    v[i] = [amp[0], amp[1]]
+    return v
+
+
+def _h_sim_states(rng, big):
+    """ONE simulator, ONE circuit, the initial state is the only thing that changes between calls"""
+    n = rng.choice([1, 2, 2, 3])
+    bundled = rng.random() < 0.6
+    sym = 0.5 if bundled and rng.random() < 0.4 else 0.0
+    c = _hist_circuit(rng, n, rng.randrange(0, 5), mphase=True, sym=sym, vector=True, declared=n)
+    has_sym = any(o.get("s") for o in c["ops"])
+    vecs = [_unit_vec(rng, n), _unit_vec(rng, n), _basis_vec(n, 0), _basis_vec(n, rng.randrange(2 ** n), rng.choice(UNITS))]
+    order = [None, 0, 1, 0, 2, None, 3, 1]
+    if rng.random() < 0.5:
+        rng.shuffle(order)
+    steps = []
+    for j in order[:rng.randrange(4, len(order) + 1)]:
+        if rng.random() < 0.25:
+            steps.append({"do": "rebuild", "c": 0})
+        st = {"do": "sim", "s": 0, "c": 0, "v": j, "vm": _vm(rng, has_sym)}
+        if rng.random() < 0.3:
+            st["poison"] = True
+        steps.append(st)
+    return {"kind": "hist", "circs": [c], "sims": [None if bundled else _native(rng, n)], "vecs": vecs, "steps": steps}
+
+
+def _h_sim_circuits(rng, big):
+    """objects kept alive while the circuit changes in exactly one component from call to call; one API per history:
+    simulators (bundled and base-class), to_unitary, or step-wise apply"""
+    n = rng.choice([2, 2, 3])
+    api = rng.choice(["sim", "sim", "sim", "unitary", "unitary", "apply"])
+    c0 = _hist_circuit(rng, n, rng.randrange(1, 5), unitary=(api == "sim"), mphase=(api != "unitary"), declared=n,
+                       sym=(0.3 if api == "unitary" and rng.random() < 0.4 else 0.0))
+    hows = ["qubits", "width", "extra", "order", "gate"] + (["phase"] if api != "unitary" else ["symbolic"])
+    rng.shuffle(hows)
+    hows = ["gate"] + hows
+    circs = [c0] + [_sibling_circuit(rng, c0, n, api == "sim", h) for h in hows[:rng.randrange(2, 5)]]
+    for c in circs:
+        _limit_sym(c["ops"], n + 1)
+    vecs = [_unit_vec(rng, n), _unit_vec(rng, n + 1)]
+    sims = [None, _native(rng, n)] if rng.random() < 0.5 else [rng.choice([None, _native(rng, n)])]
+    steps = []
+    seq = [0]
+    for i in range(1, len(circs)):
+        seq += [i, 0] if rng.random() < 0.6 else [i]
+    use_v = rng.random() < 0.6 or api == "apply"
+    for i in seq:
+        wide = _width(circs[i]) == n + 1
+        if api == "unitary":
+            st = {"do": "unitary", "c": i}
+        else:
+            st = {"do": api, "s": rng.randrange(len(sims)), "c": i, "v": (1 if wide else 0) if use_v else None,
+                  "vm": _vm(rng, any(o.get("s") for o in circs[i]["ops"]))}
+        if rng.random() < 0.2:
+            st["poison"] = True
+        steps.append(st)
+        if rng.random() < 0.15:
+            steps.append({"do": "rebuild", "c": i})
+    return {"kind": "hist", "circs": circs, "sims": sims if api == "sim" else [], "vecs": vecs, "steps": steps}
+
+
+def _h_ephemeral(rng, big):
+    """short-lived circuits: ONE slot is rebuilt as a different circuit before each call (the old object is dropped, the
+    new one may get its address), the simulators live on"""
+    n = rng.choice([2, 2, 3])
+    c0 = _hist_circuit(rng, n, rng.randrange(1, 4), mphase=True, declared=n)
+    hows = ["gate", "qubits", "extra", "order", "gate", "phase"]
+    rng.shuffle(hows)
+    sibs = [_sibling_circuit(rng, c0, n, True, h) for h in hows[:3]]
+    circs = [dict(c0), dict(c0)] + sibs     # slot 0 is the working slot, 1.. are the templates
+    vecs = [_unit_vec(rng, n)]
+    sims = [None, _native(rng, n)]
+    steps = []
+    sim, prev = rng.randrange(2), 0
+    for _ in range(rng.randrange(4, 7)):
+        j = rng.choice([x for x in range(1, len(circs)) if x != prev] if rng.random() < 0.85 else [prev or 1])
+        prev = j
+        steps.append({"do": "rebuild", "c": 0, "as": j})
+        if rng.random() < 0.25:
+            sim = 1 - sim
+        r = rng.random()
+        if r < 0.7:
+            steps.append({"do": "sim", "s": sim, "c": 0, "v": rng.choice([None, 0]), "vm": "c"})
+        elif r < 0.85 and not any("mphase" in o for o in circs[j]["ops"]):
+            steps.append({"do": "unitary", "c": 0})
+        else:
+            steps.append({"do": "apply", "c": 0, "v": 0, "vm": "c"})
+    return {"kind": "hist", "circs": circs, "sims": sims, "vecs": vecs, "steps": steps}
+
+
+def _h_setvec(rng, big):
+    """the caller reuses ONE array for different states (overwritten in place between the calls)"""
+    n = rng.choice([1, 2, 3])
+    c = _hist_circuit(rng, n, rng.randrange(1, 4), mphase=True, declared=n)
+    vecs = [_unit_vec(rng, n), _unit_vec(rng, n), _unit_vec(rng, n)]
+    vm = rng.choice(["c", "nc", "ro", "c"])
+    sims = [rng.choice([None, _native(rng, n)])]
+    steps = []
+    for src in [None, 1, 2, 0][:rng.randrange(2, 5)]:
+        if src is not None:
+            steps.append({"do": "setvec", "v": 0, "from": src})
+        steps.append({"do": rng.choice(["sim", "sim", "apply"]), "s": 0, "c": 0, "v": 0, "vm": vm})
+    return {"kind": "hist", "circs": [c], "sims": sims, "vecs": vecs, "steps": steps}
+
+
+def _h_ops(rng, big):
+    """ONE process, operation objects kept alive: the same operation at several widths and vector lengths, operations
+    that differ from it in exactly one component (content under the same name, qubit order, numeric/symbolic)"""
+    n = rng.choice([2, 3, 3, 4])
+    unitary = rng.random() < 0.4
+    g = _hist_gate(rng, n, unitary, max_arity=min(n, 3))
+    o = _op(rng, n, g)
+    if _symbolizable(o) and rng.random() < 0.25:
+        o["s"] = True      # the long-lived operation is the symbolic one, its "symbolic" sibling the numeric one
+    c0 = {"n": n, "ops": [o]}
+    hows = ["gate", "qubits", "same", "symbolic", "gate"]
+    circs = [c0]
+    for h in hows:
+        circs.append({"n": n, "ops": [dict(o)]} if h == "same" else _sibling_circuit(rng, c0, n, unitary, h))
+        circs[-1]["n"] = n
+    vecs = [_gvec(rng, n), _gvec(rng, n + 1), _gvec(rng, n)]
+    steps = []
+    order = list(range(len(circs)))
+    rng.shuffle(order)
+    order = [0] + order
+    for i in order:
+        r = rng.random()
+        if r < 0.45:
+            st = {"do": "lift", "c": i, "k": 0, "n": n}
+        elif r < 0.6:
+            st = {"do": "lift", "c": i, "k": 0, "n": n + rng.randrange(1, 3)}
+        elif r < 0.85:
+            st = {"do": "apply1", "c": i, "k": 0, "v": rng.choice([0, 2]), "vm": _vm(rng, bool(circs[i]["ops"][0].get("s")))}
+        else:
+            st = {"do": "apply1", "c": i, "k": 0, "v": 1, "vm": _vm(rng, bool(circs[i]["ops"][0].get("s")))}
+        if rng.random() < 0.3:
+            st["poison"] = True
+        steps.append(st)
+        if rng.random() < 0.35:
+            steps.append(dict(st, poison=False) if rng.random() < 0.5 else {"do": "lift", "c": 0, "k": 0, "n": n})
+    return {"kind": "hist", "circs": circs, "sims": [], "vecs": vecs, "steps": steps}
+
+
+def _h_circuit(rng, big):
+    """circuit objects kept alive: matrix asked twice (the first answer overwritten by the caller), sums built from them
+    (also c + c), the operands asked again afterwards; numeric runs next to symbolic gates"""
+    na, nb = rng.choice([1, 2, 3]), rng.choice([1, 2, 3])
+    sym = rng.choice([0.0, 0.35, 0.35])
+    a = _hist_circuit(rng, na, rng.randrange(1, 6), unitary=False, sym=sym)
+    b = _hist_circuit(rng, nb, rng.randrange(1, 4), unitary=False, sym=sym / 2,
+                      declared=rng.choice([None, nb, nb + 1]))
+    # the largest products asked for below are c0 + c0 and c0 + c1
+    nmax = max(_width(a) or na, _width(b) or nb)
+    _limit_sym(a["ops"], nmax, times=2)
+    if any(o.get("s") for o in a["ops"] + b["ops"]):
+        _limit_sym(a["ops"] + b["ops"], nmax)
+    has_sym = any(o.get("s") for o in a["ops"])
+    vecs = [_gvec(rng, _width(a))]
+    steps = [{"do": "unitary", "c": 0, "poison": rng.random() < 0.5}, {"do": "unitary", "c": 0}]
+    tail = [{"do": "width", "c": 0}, {"do": "unitary", "c": 1, "poison": rng.random() < 0.3},
+            {"do": "add", "a": 0, "b": 1}, {"do": "unitary", "c": 2}, {"do": "width", "c": 2},
+            {"do": "unitary", "c": 0}, {"do": "unitary", "c": 1},
+            {"do": "add", "a": 0, "b": 0}, {"do": "unitary", "c": 3},
+            {"do": "add_op", "a": 1, "c": 0, "k": rng.randrange(len(a["ops"]))}, {"do": "unitary", "c": 4},
+            {"do": "width", "c": 1},
+            {"do": "apply", "c": 0, "v": 0, "vm": _vm(rng, has_sym), "poison": rng.random() < 0.4},
+            {"do": "apply", "c": 0, "v": 0, "vm": _vm(rng, has_sym)}]
+    return {"kind": "hist", "circs": [a, b], "sims": [], "vecs": vecs, "steps": steps + tail[:rng.randrange(5, len(tail) + 1)]}
+
+
+def _h_interleaved(rng, big):
+    """every API of the property on the same circuit / simulator objects, interleaved"""
+    n = rng.choice([2, 3])
+    a = _hist_circuit(rng, n, rng.randrange(1, 5), declared=n)
+    b = _hist_circuit(rng, n, rng.randrange(1, 3), declared=n)
+    vecs = [_unit_vec(rng, n), _unit_vec(rng, n)]
+    sims = [None, _native(rng, n)]
+    k = rng.randrange(len(a["ops"]))
+    menu = [{"do": "unitary", "c": 0}, {"do": "sim", "s": 0, "c": 0, "v": 0, "vm": _vm(rng)},
+            {"do": "apply", "c": 0, "v": 0, "vm": _vm(rng)}, {"do": "sim", "s": 1, "c": 0, "v": 1, "vm": _vm(rng)},
+            {"do": "lift", "c": 0, "k": k, "n": n}, {"do": "sim", "s": 1, "c": 0, "v": None},
+            {"do": "apply1", "c": 0, "k": k, "v": 1, "vm": _vm(rng)}, {"do": "sim", "s": 0, "c": 1, "v": 0, "vm": _vm(rng)}]
+    rng.shuffle(menu)
+    for st in menu:
+        if rng.random() < 0.25:
+            st["poison"] = True
+    steps = menu[:rng.randrange(4, len(menu) + 1)]
+    steps += [{"do": "add", "a": 0, "b": 1}, {"do": "sim", "s": rng.randrange(2), "c": 2, "v": rng.choice([None, 0]), "vm": "c"},
+              {"do": "unitary", "c": 2}, {"do": "sim", "s": rng.randrange(2), "c": 0, "v": 1, "vm": "fresh"},
+              {"do": "unitary", "c": 0}]
+    return {"kind": "hist", "circs": [a, b], "sims": sims, "vecs": vecs, "steps": steps}
+
+
+def _h_wide(rng, n, light=False):
+    """registers of 7..10 qubits (oracle only: the exact model stops at 6); one gate of each arity 1, 2, 3"""
+    ops = []
+    arities = [1, 2, 3]
+    rng.shuffle(arities)
+    for k in arities:
+        g = _monomial(rng, k)
+        if k >= 2 and rng.random() < 0.5:
+            g = {"controlled": rng.choice([{"gate": nm, "angles": []} for nm in ("X", "Y", "S", "H")]), "k": k - 1}
+        far = rng.sample([0, 1, n - 2, n - 1, n // 2, rng.randrange(n)], 6)
+        qs = []
+        for q in far:
+            if q not in qs and len(qs) < k:
+                qs.append(q)
+        ops.append({"g": g, "qs": qs})
+    c = {"n": n, "ops": ops}
+    v = _basis_vec(n, rng.randrange(2 ** n), rng.choice(UNITS))
+    j = rng.randrange(2 ** n)
+    if v[j] == [0, 0]:
+        i = [x != [0, 0] for x in v].index(True)
+        u = v[i]
+        v[i] = [rat(Fraction(3, 5) * u[0]), rat(Fraction(3, 5) * u[1])]
+        v[j] = [0, rat(Fraction(4, 5))]
+    if light:
+        steps = [{"do": "lift", "c": 0, "k": arities.index(1), "n": n}, {"do": "apply", "c": 0, "v": 0, "vm": "c"},
+                 {"do": "sim", "s": 0, "c": 0, "v": None}][(1 if n >= 11 else 0):]
+    else:
+        steps = [{"do": "lift", "c": 0, "k": rng.randrange(3), "n": n}, {"do": "unitary", "c": 0},
+                 {"do": "apply", "c": 0, "v": 0, "vm": "c"}, {"do": "sim", "s": 1, "c": 0, "v": None},
+                 {"do": "sim", "s": 0, "c": 0, "v": 0, "vm": "c"}, {"do": "width", "c": 0}]
+    return {"kind": "hist", "circs": [c], "sims": [None, _native(rng, n)], "vecs": [v], "steps": steps}
+
+
+def _h_long(rng, big):
+    """long programs on few qubits"""
+    n = rng.choice([1, 2, 3])
+    length = rng.choice([17, 24, 33, 40] if not big else [17, 33, 64, 65, 100])
+    ops = []
+    for _ in range(length):
+        r = rng.random()
+        if r < 0.5:
+            ops.append(_op(rng, n, _monomial(rng, rng.randrange(1, min(n, 2) + 1))))
+        elif r < 0.6:
+            ops.append(_mphase(rng, n))
+        else:
+            names = [nm for nm in EXACT_UNITARY if circ.BUILTIN_QUBITS[nm] <= n]
+            ops.append(_op(rng, n, {"gate": rng.choice(names), "angles": []}))
+    c = {"n": n, "ops": ops}
+    g = {"n": n, "ops": [o for o in ops if "g" in o]}
+    vecs = [_unit_vec(rng, n)]
+    steps = [{"do": "unitary", "c": 1}, {"do": "apply", "c": 0, "v": 0, "vm": "c"}, {"do": "sim", "s": 0, "c": 0, "v": 0, "vm": "c"},
+             {"do": "sim", "s": 1, "c": 0, "v": 0, "vm": "c"}, {"do": "sim", "s": 0, "c": 1, "v": None}]
+    return {"kind": "hist", "circs": [c, g], "sims": [None, _native(rng, n)], "vecs": vecs, "steps": steps}
+
+
+def _h_incremental(rng, big):
+    """a circuit grown one operation at a time from an empty one must be the circuit built in one go"""
+    n = rng.choice([2, 3, 4])
+    donor = _hist_circuit(rng, n, rng.randrange(2, 6), unitary=False, declared=None)
+    start = {"n": rng.choice([None, None, 1, n, n + 1]), "ops": []}
+    steps, cur = [], 1
+    nxt = 2
+    for k in range(len(donor["ops"])):
+        steps.append({"do": "add_op", "a": cur, "c": 0, "k": k})
+        cur = nxt
+        nxt += 1
+        if rng.random() < 0.4:
+            steps.append({"do": "unitary", "c": cur, "poison": rng.random() < 0.3})
+    steps += [{"do": "unitary", "c": cur}, {"do": "width", "c": cur}, {"do": "unitary", "c": 0}, {"do": "width", "c": 1}]
+    return {"kind": "hist", "circs": [donor, start], "sims": [], "vecs": [], "steps": steps}
+
+
+def _histories(rng, big):
+    plan = [(_h_sim_states, 5), (_h_sim_circuits, 7), (_h_ephemeral, 4), (_h_setvec, 2), (_h_ops, 5), (_h_circuit, 5),
+            (_h_interleaved, 3), (_h_long, 2), (_h_incremental, 2)]
+    cases = []
+    for f, count in plan:
+        for _ in range(count * (4 if big else 1)):
+            cases.append(f(rng, big))
+    for n in ([7, 8, 9, 10] if big else [9]):
+        cases.append(_h_wide(rng, n))
+    cases.append(_h_wide(rng, 11 if big else 10, light=True))
+    return cases
 
 
 def _all_tuples(rng, max_n, max_k, sym_every=4):
@@ -639,6 +1658,10 @@ def _all_tuples(rng, max_n, max_k, sym_every=4):
 def corpus():
     x = {"gate": "X", "angles": []}
     cnot = {"gate": "CNOT", "angles": []}
+    h = {"gate": "H", "angles": []}
+    rx = {"gate": "RX", "angles": [["3/5", "4/5"]]}
+    u1 = {"custom": "corpu", "m": [[[0, 1], [0, 0]], [[0, 0], [1, 0]]]}
+    u2 = dict(u1, m=[[[0, 0], [0, 1]], [[-1, 0], [0, 0]]])
     g1 = {"custom": "corp1", "m": [[[1, 0], [2, 1]], [[0, -1], [3, 0]]]}
     g2 = {"custom": "corp2", "m": [[[(4 * i + j) % 5 - 2, (i + 3 * j) % 3 - 1] for j in range(4)] for i in range(4)]}
     v2 = [[1, 0], [0, 2], ["1/2", 0], [0, "-1/4"]]
@@ -666,6 +1689,91 @@ def corpus():
         {"kind": "add", "a": {"n": None, "ops": [{"g": g1, "qs": [0]}]}, "b": {"n": 2, "ops": []}, "sym": "none"},
         {"kind": "add_op", "a": {"n": 1, "ops": [{"g": g1, "qs": [0]}]}, "op": {"g": g2, "qs": [3, 1]}, "sym": "none"},
         {"kind": "add_op", "a": {"n": 1, "ops": [{"g": g1, "qs": [0]}]}, "op": {"mphase": [[1, 0], [0, 1]]}, "sym": "none"},
+        # --- classes of the round-2 seeded changes (generic representatives, not the seeded inputs)
+        # a run of numeric gates before / after / between gates with a free symbol (special-shape fast paths of to_unitary)
+        {"kind": "circuit", "n": None, "v": v2, "sym": "none",
+         "ops": [{"g": g1, "qs": [0]}, {"g": cnot, "qs": [0, 1]}, {"g": dict(g1, custom="corp3"), "qs": [1], "s": True},
+                 {"g": h, "qs": [1]}, {"g": g1, "qs": [1]}, {"g": rx, "qs": [0], "s": True}, {"g": cnot, "qs": [1, 0]},
+                 {"g": h, "qs": [0]}]},
+        # one simulator object, one circuit, only the initial state changes (result caches keyed on the circuit); the
+        # caller overwrites a result it was given; an equal circuit is rebuilt
+        {"kind": "hist", "sims": [None, {"arity": [1], "q0": [], "mphase": True, "any": True}],
+         "circs": [{"n": 2, "ops": [{"g": h, "qs": [1]}, {"mphase": [[1, 0], [0, 1], ["3/5", "4/5"], [1, 0]]},
+                                    {"g": cnot, "qs": [1, 0]}]}],
+         "vecs": [[["3/5", 0], [0, 0], [0, "4/5"], [0, 0]], [[0, 0], [0, -1], [0, 0], [0, 0]]],
+         "steps": [{"do": "sim", "s": 0, "c": 0, "v": None}, {"do": "sim", "s": 0, "c": 0, "v": 0, "vm": "c", "poison": True},
+                   {"do": "sim", "s": 0, "c": 0, "v": 1, "vm": "i"}, {"do": "rebuild", "c": 0},
+                   {"do": "sim", "s": 0, "c": 0, "v": 0, "vm": "c"}, {"do": "sim", "s": 1, "c": 0, "v": 0, "vm": "ro"},
+                   {"do": "sim", "s": 1, "c": 0, "v": 1, "vm": "list"}, {"do": "sim", "s": 1, "c": 0, "v": None},
+                   {"do": "setvec", "v": 0, "from": 1}, {"do": "sim", "s": 0, "c": 0, "v": 0, "vm": "c"}]},
+        # operations that differ in exactly one component, lifted / applied in one process: wrapped gates sharing the name
+        # "Control", custom gates sharing a name across circuits, qubit order, register width; results overwritten in between
+        {"kind": "hist", "sims": [],
+         "circs": [{"n": 3, "ops": [{"g": {"controlled": x, "k": 1}, "qs": [2, 0]}, {"g": g1, "qs": [1]}]},
+                   {"n": 3, "ops": [{"g": {"controlled": {"gate": "Z", "angles": []}, "k": 1}, "qs": [2, 0]},
+                                    {"g": dict(g1, m=[[[0, 1], [1, 0]], [[2, 0], [0, -1]]]), "qs": [1]}]},
+                   {"n": 3, "ops": [{"g": {"controlled": x, "k": 1}, "qs": [0, 2]}, {"g": g1, "qs": [1], "s": True}]}],
+         "vecs": [[[k - 3, k % 3] for k in range(8)], [[1, k] for k in range(16)]],
+         "steps": [{"do": "lift", "c": 0, "k": 0, "n": 3, "poison": True}, {"do": "lift", "c": 0, "k": 0, "n": 3},
+                   {"do": "lift", "c": 1, "k": 0, "n": 3}, {"do": "lift", "c": 2, "k": 0, "n": 3},
+                   {"do": "lift", "c": 0, "k": 0, "n": 4}, {"do": "lift", "c": 0, "k": 1, "n": 3},
+                   {"do": "lift", "c": 1, "k": 1, "n": 3}, {"do": "lift", "c": 2, "k": 1, "n": 3},
+                   {"do": "apply1", "c": 0, "k": 0, "v": 0, "vm": "c"}, {"do": "apply1", "c": 1, "k": 0, "v": 0, "vm": "c"},
+                   {"do": "apply1", "c": 0, "k": 0, "v": 1, "vm": "f"}, {"do": "apply1", "c": 0, "k": 1, "v": 0, "vm": "nc"},
+                   {"do": "apply1", "c": 1, "k": 1, "v": 0, "vm": "list"}, {"do": "unitary", "c": 0}, {"do": "unitary", "c": 1}]},
+        # two circuits that differ ONLY in the content of a custom gate with the same name (and two simulators kept alive)
+        {"kind": "hist", "sims": [None, {"arity": [2], "q0": [], "mphase": False, "any": True}],
+         "circs": [{"n": 2, "ops": [{"g": u1, "qs": [1]}, {"g": cnot, "qs": [1, 0]}]},
+                   {"n": 2, "ops": [{"g": u2, "qs": [1]}, {"g": cnot, "qs": [1, 0]}]},
+                   {"n": 2, "ops": [{"g": u1, "qs": [1], "s": True}, {"g": cnot, "qs": [1, 0]}]},
+                   {"n": 2, "ops": [{"g": u2, "qs": [1], "s": True}, {"g": cnot, "qs": [1, 0]}]}],
+         "vecs": [[["3/5", 0], [0, 0], [0, "4/5"], [0, 0]]],
+         "steps": [{"do": "unitary", "c": 0}, {"do": "unitary", "c": 1}, {"do": "sim", "s": 0, "c": 0, "v": 0, "vm": "c"},
+                   {"do": "sim", "s": 0, "c": 1, "v": 0, "vm": "c"}, {"do": "sim", "s": 1, "c": 0, "v": None},
+                   {"do": "sim", "s": 1, "c": 1, "v": None}, {"do": "apply", "c": 0, "v": 0, "vm": "c"},
+                   {"do": "apply", "c": 1, "v": 0, "vm": "c"}, {"do": "lift", "c": 0, "k": 0, "n": 2},
+                   {"do": "lift", "c": 1, "k": 0, "n": 2}, {"do": "unitary", "c": 0},
+                   {"do": "unitary", "c": 2}, {"do": "unitary", "c": 3}, {"do": "sim", "s": 0, "c": 2, "v": 0, "vm": "c"},
+                   {"do": "sim", "s": 0, "c": 3, "v": 0, "vm": "c"}, {"do": "lift", "c": 2, "k": 0, "n": 3},
+                   {"do": "lift", "c": 3, "k": 0, "n": 3}, {"do": "apply", "c": 2, "v": 0, "vm": "c"},
+                   {"do": "apply", "c": 3, "v": 0, "vm": "c"}]},
+        # the same operation twice in a row: as ONE object used twice ("alias") and as two equal objects
+        {"kind": "hist", "sims": [None, {"arity": [1], "q0": [], "mphase": False, "any": True}],
+         "circs": [{"n": 2, "alias": True, "ops": [{"g": h, "qs": [0]}, {"g": h, "qs": [0]}, {"g": u1, "qs": [1]}, {"g": u1, "qs": [1]},
+                                                  {"g": cnot, "qs": [0, 1]}, {"g": h, "qs": [0]}]},
+                   {"n": 2, "ops": [{"g": h, "qs": [0]}, {"g": h, "qs": [0]}, {"g": u1, "qs": [1]}, {"g": u1, "qs": [1]},
+                                    {"g": cnot, "qs": [0, 1]}, {"g": h, "qs": [0]}]}],
+         "vecs": [[["3/5", 0], [0, 0], [0, "4/5"], [0, 0]]],
+         "steps": [{"do": "unitary", "c": 0}, {"do": "sim", "s": 0, "c": 0, "v": 0, "vm": "c"}, {"do": "sim", "s": 1, "c": 0, "v": None},
+                   {"do": "apply", "c": 0, "v": 0, "vm": "c"}, {"do": "unitary", "c": 1}, {"do": "sim", "s": 0, "c": 1, "v": 0, "vm": "c"},
+                   {"do": "sim", "s": 1, "c": 1, "v": None}, {"do": "apply", "c": 1, "v": 0, "vm": "c"},
+                   {"do": "add", "a": 0, "b": 0}, {"do": "unitary", "c": 2}, {"do": "sim", "s": 0, "c": 2, "v": None}]},
+        # circuit objects asked twice with the first answer overwritten, c + c, the operands asked again after the sum
+        {"kind": "hist", "sims": [None],
+         "circs": [{"n": None, "ops": [{"g": g1, "qs": [1]}, {"g": cnot, "qs": [1, 0]}]}, {"n": 3, "ops": [{"g": g2, "qs": [2, 0]}]}],
+         "vecs": [v2],
+         "steps": [{"do": "unitary", "c": 0, "poison": True}, {"do": "unitary", "c": 0}, {"do": "add", "a": 0, "b": 0},
+                   {"do": "unitary", "c": 2}, {"do": "add", "a": 0, "b": 1}, {"do": "unitary", "c": 3}, {"do": "width", "c": 3},
+                   {"do": "unitary", "c": 0}, {"do": "unitary", "c": 1}, {"do": "add_op", "a": 1, "c": 0, "k": 1},
+                   {"do": "unitary", "c": 4}, {"do": "apply", "c": 0, "v": 0, "vm": "c", "poison": True},
+                   {"do": "apply", "c": 0, "v": 0, "vm": "c"}, {"do": "width", "c": 0}]},
+        # the empty circuit on the default state: the caller overwrites the state it got, then asks again
+        {"kind": "hist", "sims": [None, {"arity": [], "q0": [], "mphase": False, "any": True}], "circs": [{"n": 2, "ops": []}],
+         "vecs": [[[0, 0], [0, 1], [0, 0], [0, 0]]],
+         "steps": [{"do": "sim", "s": 0, "c": 0, "v": None, "poison": True}, {"do": "sim", "s": 0, "c": 0, "v": None},
+                   {"do": "sim", "s": 1, "c": 0, "v": None, "poison": True}, {"do": "sim", "s": 1, "c": 0, "v": None},
+                   {"do": "sim", "s": 0, "c": 0, "v": 0, "vm": "fresh", "poison": True},
+                   {"do": "sim", "s": 0, "c": 0, "v": 0, "vm": "fresh"}, {"do": "apply", "c": 0, "v": 0, "vm": "c"}]},
+        # finding: an integral float width passes the constructor's check but is kept as a float
+        {"kind": "circuit", "n": 3, "nt": "float", "ops": [{"g": g1, "qs": [0]}, {"g": cnot, "qs": [0, 1]}], "sym": "none",
+         "v": [[1, k] for k in range(8)]},
+        {"kind": "circuit", "n": 3, "nt": "np", "ops": [{"g": g1, "qs": [0], "qt": "np"}, {"g": cnot, "qs": [0, 1]}], "sym": "none",
+         "v": [[1, k] for k in range(8)]},
+        # finding: a gate with a free symbol cannot be applied to a state given as a Python list (sympy Matrix @ list)
+        {"kind": "hist", "sims": [None], "circs": [{"n": 1, "ops": [{"g": rx, "qs": [0], "s": True}]}],
+         "vecs": [[["3/5", 0], [0, "4/5"]]],
+         "steps": [{"do": "apply1", "c": 0, "k": 0, "v": 0, "vm": "list"}, {"do": "sim", "s": 0, "c": 0, "v": 0, "vm": "list"},
+                   {"do": "sim", "s": 0, "c": 0, "v": 0, "vm": "c"}]},
     ]
 
 
@@ -674,6 +1782,9 @@ def generate(rng, tier):
     cases = []
     # --- exhaustive ordered tuples of distinct indices
     cases += _all_tuples(rng, 4 if big else 3, 4 if big else 3)
+    if not big:
+        # every ordering of a 4-qubit gate on 4 qubits (special-shape shortcuts that agree with the general rule up to arity 3)
+        cases += [c for c in _all_tuples(rng, 4, 4, sym_every=6) if len(c["qs"]) == 4]
     # --- random single lifts (both embedding paths), arity 1..4, gaps, descending
     for _ in range(120 if big else 22):
         n = rng.choice([2, 3, 4, 4, 5] if big else [2, 3, 4, 4])
@@ -692,7 +1803,7 @@ def generate(rng, tier):
             # symbolic embedding path: every gate is a custom gate with a free symbol
             c["ops"] = [_op(rng, n, _gauss(rng, rng.randrange(1, min(n, 3) + 1), 1)) for _ in range(min(length, 4))]
             sym = "all"
-        elif i % 5 == 3:
+        elif i % 5 == 3 and i % 2 == 1:
             # mixed: symbolic custom gates (even positions) next to numeric gates of any kind (odd positions)
             ln = max(2, min(length, 5))
             ops = []
@@ -703,7 +1814,11 @@ def generate(rng, tier):
                     ops.append(_op(rng, n, _unitary_gate(rng, n, 2)))
             c["ops"] = ops
             sym = "mixed"
-        cases.append(dict(c, kind="circuit", v=_gvec(rng, n), sym=sym))
+        elif i % 5 == 3 or i % 5 == 4:
+            # mixed, any pattern: runs of numeric gates before / between / after gates with a free symbol (custom gates and
+            # parametric built-ins), so that both embedding paths and both multiplication paths meet in one product
+            c["ops"] = _mixed_ops(rng, n, max(2, min(length, 6)))
+        cases.append(dict(c, kind="circuit", v=_exotic_vec(rng, n), sym=sym))
     if big:
         c = _circuit(rng, 6, 3, max_arity=2)
         cases.append(dict(c, kind="circuit", v=_gvec(rng, 6), sym="none"))
@@ -723,6 +1838,11 @@ def generate(rng, tier):
         b = _circuit(rng, nb, rng.randrange(0, 4), budget=2)
         if not a["ops"]:
             a["n"] = rng.choice([None, na])
+        if rng.random() < 0.3:
+            # one operand (or both) carries free symbols: the sum is a mixed circuit
+            for c_ in (a, b):
+                c_["ops"] = [dict(o, s=True) if _symbolizable(o) and rng.random() < 0.5 else o for o in c_["ops"]]
+            _limit_sym(a["ops"] + b["ops"], max(na, nb) + 2)
         cases.append({"kind": "add", "a": a, "b": b, "sym": "none"})
         # declared widths beyond what the gates use (idle trailing qubits) on either operand, also on an empty one
         b2 = dict(b, n=nb + rng.randrange(1, 3))
@@ -730,6 +1850,8 @@ def generate(rng, tier):
         cases.append({"kind": "add", "a": a2, "b": b2, "sym": "none"})
         g = _any_gate(rng, nb, 3, [1])
         cases.append({"kind": "add_op", "a": a, "op": _op(rng, nb, g), "sym": "none"})
+    # --- histories on long-lived objects (simulators, circuits, operations, arrays), wide registers, long programs
+    cases += _histories(rng, big)
     # --- malformed stream
     for _ in range(40 if big else 8):
         n = rng.choice([2, 3])
@@ -784,12 +1906,33 @@ def nontrivial(case):
     if k in ("add", "add_op"):
         ops = case["a"]["ops"] + (case["b"]["ops"] if k == "add" else [case["op"]])
         return len(ops) >= 2 and _width(case["a"]) != _width(case["b"] if k == "add" else {"n": None, "ops": [case["op"]]})
+    if k == "hist":
+        # >= 2 result-producing calls on shared objects, one of them on a circuit that is non-trivial by the rule above
+        calls = [st for st in case["steps"] if st["do"] in RESULT_STEPS]
+        if len(calls) < 2:
+            return False
+        specs = [sp for _, sp, _, _ in _hist_walk(case) if sp is not None]
+        return any(nontrivial({"kind": "circuit", "n": sp.get("n"), "ops": sp["ops"]}) or
+                   (len(sp["ops"]) == 1 and nontrivial(dict(sp["ops"][0], kind="lift", n=_width(sp) or 0))
+                    if "g" in (sp["ops"] or [{}])[0] else False) for sp in specs)
     return False
 
 
 def distribution(cases, outs):
     widths, arities, kinds_err = {}, {}, 0
+    steps = {}
+    for c in cases:
+        if c["kind"] == "hist":
+            for st in c["steps"]:
+                key = st["do"] + ("+overwrite" if st.get("poison") else "")
+                steps[key] = steps.get(key, 0) + 1
     for c, o in zip(cases, outs):
+        if c["kind"] == "hist":
+            for sp in c["circs"]:
+                n = _width(sp)
+                if n is not None:
+                    widths[n] = widths.get(n, 0) + 1
+            continue
         ops = c.get("ops") or ([c] if c["kind"] == "lift" else [])
         for op in ops:
             if "qs" in op:
@@ -801,5 +1944,7 @@ def distribution(cases, outs):
             kinds_err += 1
     return {"widths": dict(sorted(widths.items())), "arities": dict(sorted(arities.items())),
             "cases_with_an_exception": kinds_err,
-            "symbolic_path_cases": sum(1 for c in cases if c.get("sym") in ("all", "mixed")),
+            "symbolic_path_cases": sum(1 for c in cases if c.get("sym") in ("all", "mixed") or any(
+                o.get("s") for sp in ([c] if "ops" in c else c.get("circs", [])) for o in sp["ops"])),
+            "history_steps": dict(sorted(steps.items())),
             "native_predicate_cases": sum(1 for c in cases if c.get("native"))}
